@@ -9,137 +9,139 @@ Local Open Scope R_scope.
 Theorem C27_reexpress_is_R_S_Rt M xx yy zz xy xz yz : is_rotation ROps M ->
   sym_to_m33 (reexpressSymMat33 ROps M ((xx,yy,zz),(xy,xz,yz))) = sym_RSRt ROps M ((xx,yy,zz),(xy,xz,yz)).
 Proof. exact (reexpress_is_R_S_Rt M xx yy zz xy xz yz). Qed.
-Print Assumptions C27_reexpress_is_R_S_Rt.
 
 Theorem C27_rot_mul_inv_self M : is_ortho ROps M -> rot_mul_inv ROps M M = I33.
 Proof. exact (rot_mul_inv_self M). Qed.
-Print Assumptions C27_rot_mul_inv_self.
 
 Theorem C27_inv_mul_rot_self M : is_ortho ROps M -> inv_mul_rot ROps M M = I33.
 Proof. exact (inv_mul_rot_self M). Qed.
-Print Assumptions C27_inv_mul_rot_self.
 
 Theorem C27_rot_div_self M : is_ortho ROps M -> rot_div ROps M M = I33.
 Proof. exact (rot_div_self M). Qed.
-Print Assumptions C27_rot_div_self.
 
 Theorem C27_rot_mul_rotation A B : is_rotation ROps A -> is_rotation ROps B -> is_rotation ROps (rot_mul ROps A B).
 Proof. exact (rot_mul_rotation A B). Qed.
-Print Assumptions C27_rot_mul_rotation.
 
 Theorem C27_rot_mul_inv_rotation A B : is_rotation ROps A -> is_rotation ROps B -> is_rotation ROps (rot_mul_inv ROps A B).
 Proof. exact (rot_mul_inv_rotation A B). Qed.
-Print Assumptions C27_rot_mul_inv_rotation.
 
 Theorem C27_inv_mul_rot_rotation A B : is_rotation ROps A -> is_rotation ROps B -> is_rotation ROps (inv_mul_rot ROps A B).
 Proof. exact (inv_mul_rot_rotation A B). Qed.
-Print Assumptions C27_inv_mul_rot_rotation.
 
 Theorem C27_rot_mulv_preserves_norm M v : is_ortho ROps M -> v3_normSqr ROps (m33_mulv ROps M v) = v3_normSqr ROps v.
 Proof. exact (rot_mulv_preserves_norm M v). Qed.
-Print Assumptions C27_rot_mulv_preserves_norm.
 
 Theorem C27_rot_inv_mulv_inverts M v : is_ortho ROps M -> m33_mulv ROps (tr33 M) (m33_mulv ROps M v) = v.
 Proof. exact (rot_inv_mulv_inverts M v). Qed.
-Print Assumptions C27_rot_inv_mulv_inverts.
 
 Theorem C27_X_compose_assoc X Y Z : X_compose ROps (X_compose ROps X Y) Z = X_compose ROps X (X_compose ROps Y Z).
 Proof. exact (X_compose_assoc X Y Z). Qed.
-Print Assumptions C27_X_compose_assoc.
 
 Theorem C27_X_compose_acts X Y s :
   X_shiftFrameStationToBase ROps (X_compose ROps X Y) s = X_shiftFrameStationToBase ROps X (X_shiftFrameStationToBase ROps Y s).
 Proof. exact (X_compose_acts X Y s). Qed.
-Print Assumptions C27_X_compose_acts.
 
 Theorem C27_X_compose_id_l X : X_compose ROps Xid X = X.
 Proof. exact (X_compose_id_l X). Qed.
-Print Assumptions C27_X_compose_id_l.
 
 Theorem C27_X_compose_id_r X : X_compose ROps X Xid = X.
 Proof. exact (X_compose_id_r X). Qed.
-Print Assumptions C27_X_compose_id_r.
 
 Theorem C27_X_composeInv_agrees X Yi : X_composeInv ROps X Yi = X_compose ROps X (IX_toTransform ROps Yi).
 Proof. exact (X_composeInv_agrees X Yi). Qed.
-Print Assumptions C27_X_composeInv_agrees.
 
 Theorem C27_IX_compose_agrees Xi Y : IX_compose ROps Xi Y = X_compose ROps (IX_toTransform ROps Xi) Y.
 Proof. exact (IX_compose_agrees Xi Y). Qed.
-Print Assumptions C27_IX_compose_agrees.
 
 Theorem C27_IX_composeInv_agrees Xi Yi : IX_composeInv ROps Xi Yi = X_compose ROps (IX_toTransform ROps Xi) (IX_toTransform ROps Yi).
 Proof. exact (IX_composeInv_agrees Xi Yi). Qed.
-Print Assumptions C27_IX_composeInv_agrees.
 
 Theorem C27_IX_shiftFrameStationToBase_agrees Xi s :
   IX_shiftFrameStationToBase ROps Xi s = X_shiftFrameStationToBase ROps (IX_toTransform ROps Xi) s.
 Proof. exact (IX_shiftFrameStationToBase_agrees Xi s). Qed.
-Print Assumptions C27_IX_shiftFrameStationToBase_agrees.
 
 Theorem C27_X_times_inverse X : is_ortho ROps (fst X) -> X_composeInv ROps X X = Xid.
 Proof. exact (X_times_inverse X). Qed.
-Print Assumptions C27_X_times_inverse.
 
 Theorem C27_inverse_times_X X : is_ortho ROps (fst X) -> IX_compose ROps X X = Xid.
 Proof. exact (inverse_times_X X). Qed.
-Print Assumptions C27_inverse_times_X.
 
 Theorem C27_inverse_of_compose X Y : is_ortho ROps (fst X) -> is_ortho ROps (fst Y) ->
   IX_toTransform ROps (X_compose ROps X Y) = X_compose ROps (IX_toTransform ROps Y) (IX_toTransform ROps X).
 Proof. exact (inverse_of_compose X Y). Qed.
-Print Assumptions C27_inverse_of_compose.
 
 Theorem C27_shift_base_frame_roundtrip X s : is_ortho ROps (fst X) ->
   X_shiftBaseStationToFrame ROps X (X_shiftFrameStationToBase ROps X s) = s.
 Proof. exact (shift_base_frame_roundtrip X s). Qed.
-Print Assumptions C27_shift_base_frame_roundtrip.
 
 Theorem C27_shift_frame_base_roundtrip X s : is_ortho ROps (fst X) ->
   X_shiftFrameStationToBase ROps X (X_shiftBaseStationToFrame ROps X s) = s.
 Proof. exact (shift_frame_base_roundtrip X s). Qed.
-Print Assumptions C27_shift_frame_base_roundtrip.
 
 Theorem C27_IX_shift_is_inverse X s : is_ortho ROps (fst X) ->
   IX_shiftFrameStationToBase ROps X (X_shiftFrameStationToBase ROps X s) = s /\
   IX_shiftBaseStationToFrame ROps X (IX_shiftFrameStationToBase ROps X s) = s /\
   IX_shiftFrameStationToBase ROps X s = X_shiftBaseStationToFrame ROps X s.
 Proof. exact (IX_shift_is_inverse X s). Qed.
-Print Assumptions C27_IX_shift_is_inverse.
 
 Theorem C27_X_pInv_is_inverse_translation X : X_pInv ROps X = snd (IX_toTransform ROps X).
 Proof. exact (X_pInv_is_inverse_translation X). Qed.
-Print Assumptions C27_X_pInv_is_inverse_translation.
 
 Theorem C27_IX_ofTransform_reads_back X : is_ortho ROps (fst X) -> IX_toTransform ROps (IX_ofTransform ROps X) = X.
 Proof. exact (IX_ofTransform_reads_back X). Qed.
-Print Assumptions C27_IX_ofTransform_reads_back.
 
 Theorem C27_X_compose_rotation X Y : is_rotation ROps (fst X) -> is_rotation ROps (fst Y) -> is_rotation ROps (fst (X_compose ROps X Y)).
 Proof. exact (X_compose_rotation X Y). Qed.
-Print Assumptions C27_X_compose_rotation.
 
 Theorem C27_three_angle_roundtrip_partial R0 space a1 (i:nat) a2 (j:nat) a3 (k:nat) : (i < 3)%nat -> (j < 3)%nat -> (k < 3)%nat ->
   let M := setFromThreeAnglesThreeAxes ROps R0 space a1 i a2 j a3 k in
   M = seq3 space a1 i a2 j a3 k /\ is_rotation ROps M.
 Proof. exact (three_angle_roundtrip_partial R0 space a1 i a2 j a3 k). Qed.
-Print Assumptions C27_three_angle_roundtrip_partial.
 
 Theorem C27_two_angle_roundtrip_partial R0 space a1 (i:nat) a2 (j:nat) : (i < 3)%nat -> (j < 3)%nat ->
   let M := setFromTwoAnglesTwoAxes ROps R0 space a1 i a2 j in
   M = seq2 space a1 i a2 j /\ is_rotation ROps M.
 Proof. exact (two_angle_roundtrip_partial R0 space a1 i a2 j). Qed.
-Print Assumptions C27_two_angle_roundtrip_partial.
 
 Theorem C27_ex_unit_cs : (4/5)*(4/5) + (3/5)*(3/5) = 1.
 Proof. exact (@ex_unit_cs). Qed.
-Print Assumptions C27_ex_unit_cs.
 
 Theorem C27_ex_rotation_exists : is_rotation ROps (Relem ROps 2 (3/5) (4/5)) /\ Relem ROps 2 (3/5) (4/5) <> I33.
 Proof. exact (@ex_rotation_exists). Qed.
-Print Assumptions C27_ex_rotation_exists.
 
 Theorem C27_ex_unit_quat : (1/2)*(1/2)+(1/2)*(1/2)+(1/2)*(1/2)+(1/2)*(1/2) = 1.
 Proof. exact (@ex_unit_quat). Qed.
-Print Assumptions C27_ex_unit_quat.
 
+(** one traversal for the axioms of all theorems of this file (a Print Assumptions per theorem costs seconds each) *)
+Definition C27_allX := (@C27_reexpress_is_R_S_Rt,
+  @C27_rot_mul_inv_self,
+  @C27_inv_mul_rot_self,
+  @C27_rot_div_self,
+  @C27_rot_mul_rotation,
+  @C27_rot_mul_inv_rotation,
+  @C27_inv_mul_rot_rotation,
+  @C27_rot_mulv_preserves_norm,
+  @C27_rot_inv_mulv_inverts,
+  @C27_X_compose_assoc,
+  @C27_X_compose_acts,
+  @C27_X_compose_id_l,
+  @C27_X_compose_id_r,
+  @C27_X_composeInv_agrees,
+  @C27_IX_compose_agrees,
+  @C27_IX_composeInv_agrees,
+  @C27_IX_shiftFrameStationToBase_agrees,
+  @C27_X_times_inverse,
+  @C27_inverse_times_X,
+  @C27_inverse_of_compose,
+  @C27_shift_base_frame_roundtrip,
+  @C27_shift_frame_base_roundtrip,
+  @C27_IX_shift_is_inverse,
+  @C27_X_pInv_is_inverse_translation,
+  @C27_IX_ofTransform_reads_back,
+  @C27_X_compose_rotation,
+  @C27_three_angle_roundtrip_partial,
+  @C27_two_angle_roundtrip_partial,
+  @C27_ex_unit_cs,
+  @C27_ex_rotation_exists,
+  @C27_ex_unit_quat).
+Print Assumptions C27_allX.
